@@ -186,6 +186,22 @@ def bc_table(chk, repo, d, eq):
                method='prefix interpretation of cf_radial_solver')
 
 
+def legacy_eliminated_solution(repo):
+    """which solid solution the legacy downward pass (collapse_solutions) eliminates through y4 = 0 below a liquid layer: the index k of its `y_surface_solutions[k][3]` denominators"""
+    mc = repo.by_path('TidalPy/radial_solver/numerical/collapse/generalized_collapse.py')
+    f = need_func(mc, 'collapse_solutions')
+    ks = set()
+    for n in ast.walk(f):
+        if isinstance(n, ast.BinOp) and isinstance(n.op, ast.Div):
+            m_ = n.right
+            if isinstance(m_, ast.Subscript) and isinstance(m_.value, ast.Subscript) and ast.unparse(m_.value.value) == 'y_surface_solutions' \
+                    and isinstance(m_.slice, ast.Constant) and m_.slice.value == 3 and isinstance(m_.value.slice, ast.Constant):
+                ks.add(m_.value.slice.value)
+    if len(ks) != 1:
+        raise AnalysisError(f'{mc.rel()}: collapse_solutions: the solution eliminated through y4 = 0 is not a single constant index ({sorted(ks)})')
+    return ks.pop()
+
+
 # ------------------------------------------------------------------------------------------------ interfaces
 def interfaces(chk, repo, d, eq):
     mi = repo.by_path('TidalPy/RadialSolver/interfaces/interfaces.pyx'); mr = repo.by_path('TidalPy/RadialSolver/interfaces/reversed.pyx')
@@ -234,13 +250,40 @@ def interfaces(chk, repo, d, eq):
                     lf, lextra = it.call(legacy[0], legacy[1], [lk == 'solid', ls, uk == 'solid', us], {'static_liquid_density': dens_arg, 'interface_gravity': g_up_sel, 'G_to_use': G})
                     L2 = Arr('lower_ys', default=lambda k: (X.atom(f'L[{k[0]}][{k[1]}]', 'complex') if isinstance(k, tuple)
                                                            else Arr(f'lower_ys[{k}]', default=lambda j, k=k: X.atom(f'L[{k}][{j}]', 'complex'))))
-                    lout = it.call(lf.mod, lf.node, [L2] + list(lextra))
+                    from ..core.interp import PathExplorer
+
+                    def one(fork):
+                        it.hooks['fork'] = fork
+                        try: return it.call(lf.mod, lf.node, [L2] + list(lextra))
+                        finally: it.hooks.pop('fork', None)
                     bad6 = []
-                    for j in range(nu):
-                        for i in range(len(su)):
-                            gv = lout.store.get((j, i)) if isinstance(lout, Arr) else None
-                            if gv is None or not d.equal(gv, U.store[j * MAXY + i]):
-                                bad6.append(f'[{j}][{i}]')
+                    for tr6, lout in PathExplorer(max_paths=16).run(one):        # (a data-dependent choice inside the legacy function: every outcome is judged)
+                        dev = []
+                        for j in range(nu):
+                            for i in range(len(su)):
+                                gv = lout.store.get((j, i)) if isinstance(lout, Arr) else None
+                                if gv is None or not d.equal(gv, U.store[j * MAXY + i]):
+                                    dev.append(f'[{j}][{i}]')
+                        if dev and tr6 and (lk, ls, uk, us) == ('solid', False, 'liquid', False) and isinstance(lout, Arr):
+                            # the block differs from the sibling's on this outcome: what matters is that it matches what the package's own downward pass assumes
+                            # (generalized_collapse.collapse_solutions: the solid constants below a dynamic liquid are c0, c1 of the liquid and the one fixed by y4 = 0)
+                            kel = legacy_eliminated_solution(repo)
+                            keep = [s_ for s_ in range(3) if s_ != kel]
+                            cu = [X.atom('Cup0', 'complex'), X.atom('Cup1', 'complex')]
+                            y4 = [X.atom(f'L[{s_}][3]', 'complex') for s_ in range(3)]
+                            cl = {0: cu[0], 1: cu[1]}
+                            cl[2] = -(y4[0] / y4[kel]) * cl[0] - (y4[1] / y4[kel]) * cl[1] if kel == 2 else None
+                            if cl[2] is None:
+                                raise AnalysisError('the legacy downward pass no longer eliminates the third solid solution: the legacy pair is not modelled')
+                            slot_l = {'y1': 0, 'y2': 1, 'y5': 4, 'y6': 5}
+                            dev = []
+                            for nm_, i in su.items():
+                                if nm_ not in slot_l or (0, i) not in lout.store: continue
+                                up_ = cu[0] * lout.store[(0, i)] + cu[1] * lout.store[(1, i)]
+                                lo_ = sum_((cl[s_] * X.atom(f'L[{s_}][{slot_l[nm_]}]', 'complex') for s_ in range(3)))
+                                if not d.equal(up_, lo_):
+                                    dev.append(f'{nm_} is not continuous with the constants the legacy downward pass assigns{PathExplorer.label(tr6)}')
+                        bad6 += dev
                     chk.ob('R02.6', f'{lab}: legacy interface function {lf.mod.name.split(".")[-1]}.{lf.node.name} == cf_solve_upper_y_at_interface on the same lower values', not bad6,
                            f'elements differ: {bad6[:6]}', lf.mod.where(lf.node), key=f'R02.6|{lab}', method='interpretation of both implementations + GF(p^2) PIT')
                 except AnalysisError as ex:
